@@ -45,20 +45,36 @@ def _probe(t, limit):
     return _Meta("Probe_" + t.__name__, (), {})
 
 
+def _watchdog(signum, frame):
+    raise _Budget()
+
+
+def _guarded(f, t):
+    """f(t) under a CPU-time watchdog (backstop for a type search that never calls isinstance): the unit, the
+    exception class name, or 'Loop'.  Handler and timer are restored."""
+    import signal
+    old = signal.signal(signal.SIGVTALRM, _watchdog)
+    signal.setitimer(signal.ITIMER_VIRTUAL, 2.0)      # 2 s of CPU inside one prev_of/next_of call
+    try:
+        try:
+            return f(t)
+        finally:
+            signal.setitimer(signal.ITIMER_VIRTUAL, 0)
+            signal.signal(signal.SIGVTALRM, old)
+    except _Budget:
+        return "Loop"
+    except Exception as e:          # raised from inside pyroll
+        return type(e).__name__
+
+
 def nav_of(u, direction, t, limit=64):
     """outcome of u.prev_of(t) / u.next_of(t): the unit, or the exception class name, or 'Loop';
     called first with a counting stand-in for `t`, then (when that came back) with `t` itself"""
     f = getattr(u, direction)
-    try:
-        r1 = f(_probe(t, limit))
-    except _Budget:
+    r1 = _guarded(f, _probe(t, limit))
+    if r1 == "Loop":
         return "Loop"
-    except Exception as e:          # raised from inside pyroll
-        r1 = type(e).__name__
-    try:
-        r2 = f(t)
-    except Exception as e:
-        r2 = type(e).__name__
+    r2 = _guarded(f, t)
     if r1 is not r2 and r1 != r2:
         return ("Differs", r1, r2)
     return r2
@@ -204,6 +220,16 @@ class Real:
             except Exception as e:
                 res.append(type(e).__name__)
         return " ".join(res)
+
+    def listed_twice(self):
+        seen = set()
+        for q in self.units:
+            if self.kind_of(q) == 3:
+                for x in q._subunits:
+                    if id(x) in seen:
+                        return True
+                    seen.add(id(x))
+        return False
 
     def navof(self, u, q):
         """prev_of / next_of with the type standing for the model's query `q` (0 Unit, 1 roll pass, 2 transport,
@@ -495,8 +521,7 @@ def gen_history(rng, n_ops, fresh_only):
                     op = (name, s, i, j, pick_units(s, rng.randrange(0, 4)))
             elif name == "setsliceext":
                 # l[i:j:k] = us.  k = 0 raises before anything happens; k = 1 is the plain slice; otherwise the sizes
-                # must agree - a size MISMATCH is deliberately not generated: the unchanged code orphans the addressed
-                # units and then raises ValueError (finding "ext-slice-size-mismatch", notes/C13.md; theorem C13_ext_size_counterexample)
+                # must agree: a size mismatch (generated in ~12% of the cases) raises ValueError and must change nothing
                 k = 0 if rng.random() < 0.03 else rng.choice([-3, -2, -1, -1, 2, 2, 3, 1])
                 i, j = (None, None) if rng.random() < 0.4 else (oidx(), oidx())
                 if k == 0:
@@ -507,7 +532,13 @@ def gen_history(rng, n_ops, fresh_only):
                         us = reinsert(cur, k != 1)
                     else:
                         us = pick_units(s, len(cur) if k != 1 else rng.randrange(0, 4))
-                    if k != 1 and len(us) != len(cur):
+                    if k != 1 and rng.random() < 0.12:
+                        # size mismatch: drop one unit or add unlisted ones
+                        if us and rng.random() < 0.5:
+                            us = us[:-1]
+                        else:
+                            us = us + pick_units(s, rng.choice([1, 1, 2]))
+                    elif k != 1 and len(us) != len(cur):
                         continue
                     op = (name, s, i, j, k, us)
             elif name == "delsliceext":
@@ -571,7 +602,10 @@ def inserted_replaced(real, op):
             return list(op[4]), [real.uid(x) for x in lst[op[2]:op[3]]]
         if op[4] == 0:
             return [], []                           # ValueError before anything happens
-        return list(op[5]), [real.uid(x) for x in lst[op[2]:op[3]:op[4]]]
+        cur = lst[op[2]:op[3]:op[4]]
+        if op[4] != 1 and len(cur) != len(op[5]):
+            return [], []                           # ValueError (extended slice of another size), nothing changes
+        return list(op[5]), [real.uid(x) for x in cur]
     return [], []
 
 
@@ -675,6 +709,10 @@ CORPUS = [
     [("unit", 1, 0), ("unit", 2, 1), ("seq", 0, [0, 1]), ("setitem", 2, 1, 1), ("setitem", 2, -2, 0)],
     [("unit", 1, 0), ("unit", 2, 1), ("unit", 0, 2), ("seq", 0, [0, 1, 2]), ("setsliceext", 3, None, None, -1, [0, 1, 2]),
      ("delsliceext", 3, None, None, -2)],
+    # extended-slice assignment of another size: ValueError, nothing may change (fixed in the repository, d884e3b)
+    [("unit", 0, 0), ("unit", 0, 1), ("unit", 0, 2), ("unit", 0, 3), ("seq", 0, [0, 1, 2]),
+     ("setsliceext", 4, None, None, 2, [3]), ("setsliceext", 4, None, None, -1, [2, 1]),
+     ("setsliceext", 4, None, None, 2, [2, 3, 0])],
     # navigation by type: own type, base type, foreign type, first/last, nested sequence
     [("unit", 1, 0), ("unit", 2, 1), ("unit", 0, 2), ("unit", 1, 3), ("unit", 2, 0), ("seq", 1, [2, 3]),
      ("seq", 0, [0, 1, 5, 4]), ("prepend", 6, 2)],
@@ -690,6 +728,8 @@ def run_history(ctx, ops, lean_lines, meta):
     real = Real()
     obs = []
     for i, op in enumerate(ops):
+        if op[0] in ("setitem", "setslice", "setsliceext") and op_overlaps(real, op):
+            ctx.count("reinserts-replaced-units:" + op[0])
         st = real.apply(op)
         d = real.dump()
         navs = [real.nav(u) for u in range(len(real.units))]
@@ -698,9 +738,10 @@ def run_history(ctx, ops, lean_lines, meta):
         for u in range(len(real.units)):
             lean_lines.append(f"nav {u}")
         probs = real.oracle()
-        if not probs:
+        if not probs and not real.listed_twice():
             # navigation by type, compared with the model in consistent states only (with inconsistent sibling
-            # parents the real type search may not terminate at all)
+            # parents or a unit listed twice - l = [a, b, a]: a.next is b, b.next is a - the real type search
+            # need not terminate at all)
             for u in range(len(real.units)):
                 for q in range(4):
                     navs.append(real.navof(u, q))
